@@ -26,6 +26,7 @@ import (
 	"sort"
 	"strings"
 	"sync"
+	"sync/atomic"
 	"time"
 
 	"github.com/go-logr/logr/funcr"
@@ -55,15 +56,16 @@ import (
 const peCluster = "c-verif"
 
 type peCfg struct {
-	Trunk     bool // cluster-wide trunk mode
-	Exclusive bool // node-2 is an exclusive-ENI node
-	Names     int  // distinct pod names
-	Steps     int
-	Faults    map[int]cloudsim.Fault
-	APIFaults bool
-	Lag       int  // percent of controller reads served from a lagging cache
-	Deposed   bool // a deposed leader keeps reconciling for a while from a stale, slowly advancing snapshot
-	FixedBias bool // most names use fixed allocations (C11)
+	Trunk      bool // cluster-wide trunk mode
+	Exclusive  bool // node-2 is an exclusive-ENI node
+	Names      int  // distinct pod names
+	Steps      int
+	Faults     map[int]cloudsim.Fault
+	APIFaults  bool
+	Lag        int  // percent of controller reads served from a lagging cache
+	Deposed    bool // a deposed leader keeps reconciling for a while from a stale, slowly advancing snapshot
+	FixedBias  bool // most names use fixed allocations (C11)
+	Interleave int  // percent of controller API calls before which other actors get to run (concurrency of the two controllers, the collectors and kubelet)
 }
 
 type pePod struct {
@@ -426,7 +428,19 @@ func (c *peCache) Get(ctx context.Context, key client.ObjectKey, obj client.Obje
 		c.mu.Unlock()
 	}
 	if pos == last {
-		return c.WithWatch.Get(ctx, key, obj, opts...)
+		err := c.WithWatch.Get(ctx, key, obj, opts...)
+		if !c.snapshot {
+			// other actors may have run inside that call (interleaving): what was read is the newest version
+			c.h.verMu.Lock()
+			n := len(c.h.vers[k]) - 1
+			c.h.verMu.Unlock()
+			c.mu.Lock()
+			if n > c.pos[k] {
+				c.pos[k] = n
+			}
+			c.mu.Unlock()
+		}
+		return err
 	}
 	c.h.mon.r.Count("stale_reads_served", 1)
 	v := vers[pos].obj
@@ -458,18 +472,24 @@ type peHist struct {
 	dectl  *podeni.ReconcilePodENI // snapshot of a past moment, advancing slowly
 	dcache *peCache
 
-	c      *ctxT
-	cfg    peCfg
-	mon    *peMon
-	hooks  *apisim.Hooks
-	cl     client.WithWatch
-	cloud  *cloudsim.CtrlCloud
-	pctl   *podctl.ReconcilePod
-	ectl   *podeni.ReconcilePodENI
-	rng    *rand.Rand
-	uidGen int
-	apiMu  sync.Mutex
-	apiFlt int
+	c          *ctxT
+	cfg        peCfg
+	mon        *peMon
+	hooks      *apisim.Hooks
+	cl         client.WithWatch
+	cloud      *cloudsim.CtrlCloud
+	pctl       *podctl.ReconcilePod
+	ectl       *podeni.ReconcilePodENI
+	rng        *rand.Rand
+	uidGen     int
+	apiMu      sync.Mutex
+	apiFlt     int
+	burstMu    sync.Mutex
+	scripted   func()       // one-shot: runs instead of a random burst at the next matching controller API call
+	scriptedAt string       // "get" (a pod read) | "write" (a record write)
+	inCtl      atomic.Int32 // >0 while a controller (or collector) call is running
+	walking    bool
+	irng       *rand.Rand
 }
 
 var peOnce sync.Once
@@ -496,6 +516,9 @@ func genPeCfg(rng *rand.Rand) peCfg {
 		cfg.Lag = 10 + rng.Intn(50)
 	}
 	cfg.Deposed = rng.Intn(3) == 0
+	if rng.Intn(2) == 0 {
+		cfg.Interleave = 5 + rng.Intn(25)
+	}
 	if rng.Intn(3) != 0 {
 		cfg.Faults = genFaults(rng, 1+rng.Intn(4), 40)
 		for k, f := range cfg.Faults {
@@ -566,10 +589,17 @@ func newPeHist(c *ctxT, prop string, hid int, cfg peCfg, seed int64) *peHist {
 			}
 			h.mon.observe(verb, b, a)
 		}
+		hk.BeforeGet = func(ctx context.Context, key client.ObjectKey, obj client.Object) error {
+			if _, ok := obj.(*corev1.Pod); ok {
+				h.maybeBurst("get")
+			}
+			return nil
+		}
 		hk.BeforeWrite = func(ctx context.Context, verb string, obj client.Object) error {
 			if _, ok := obj.(*v1beta1.PodENI); !ok {
 				return nil
 			}
+			h.maybeBurst("write")
 			h.apiMu.Lock()
 			defer h.apiMu.Unlock()
 			if h.apiFlt > 0 {
@@ -609,6 +639,50 @@ func newPeHist(c *ctxT, prop string, hid int, cfg peCfg, seed int64) *peHist {
 		h.mon.spec[sp.Name] = sp
 	}
 	return h
+}
+
+// maybeBurst: the controllers, the collectors and kubelet run concurrently in production; a delivery is not
+// atomic. Before a controller's API call other actors get to run a few steps (re-entrantly, same goroutine).
+func (h *peHist) maybeBurst(at string) {
+	if h.inCtl.Load() == 0 || !h.burstMu.TryLock() {
+		return
+	}
+	defer h.burstMu.Unlock()
+	if f := h.scripted; f != nil && h.scriptedAt == at {
+		h.scripted = nil
+		h.mon.note("-- scripted overlap begins (at a %s)", at)
+		f()
+		h.mon.note("-- scripted overlap ends")
+		return
+	}
+	if h.cfg.Interleave == 0 {
+		return
+	}
+	if h.irng == nil || !h.walking || h.irng.Intn(100) >= h.cfg.Interleave {
+		return
+	}
+	h.mon.note("-- interleaved steps begin")
+	names := h.names()
+	for i, n := 0, 1+h.irng.Intn(4); i < n; i++ {
+		name := names[h.irng.Intn(len(names))]
+		h.mon.mu.Lock()
+		p := h.mon.cur[name]
+		h.mon.mu.Unlock()
+		switch k := h.irng.Intn(10); {
+		case k < 3:
+			h.deliverENI(name)
+		case k < 6:
+			h.deliverPod(name)
+		case k < 7:
+			h.createPod(name)
+		case k < 9 && p != nil && p.Exists:
+			h.remove(p)
+		default:
+			h.deliverENI(name)
+		}
+	}
+	h.mon.r.Count("interleaved_bursts", 1)
+	h.mon.note("-- interleaved steps end")
 }
 
 func (h *peHist) recordVersion(before, after client.Object) {
@@ -803,6 +877,8 @@ func (h *peHist) deliverDeposedAt(name string, eni bool) {
 }
 
 func (h *peHist) safe(who string, f func()) {
+	h.inCtl.Add(1)
+	defer h.inCtl.Add(-1)
 	defer func() {
 		if e := recover(); e != nil {
 			h.mon.mu.Lock()
@@ -854,6 +930,9 @@ func (h *peHist) names() []string {
 
 func peRandomWalk(h *peHist) {
 	rng := h.rng
+	h.irng = rand.New(rand.NewSource(rng.Int63()))
+	h.walking = true
+	defer func() { h.walking = false }()
 	names := h.names()
 	for step := 0; step < h.cfg.Steps; step++ {
 		name := names[rng.Intn(len(names))]
